@@ -58,6 +58,11 @@ type XNode struct {
 	// IfFeatures: the node's own if-feature statements followed by those of every uses and augment statement
 	// that placed it (a statement's conditions reach the nodes it puts into the tree directly).
 	IfFeatures []string `json:",omitempty"`
+	// Extra: the statements goyang keeps without interpreting them (must, when, status, reference, presence), per
+	// keyword in the order own statements first, then those of every uses and augment statement that placed the
+	// node. Exts: the extension statements ("keyword argument"), in the same order.
+	Extra map[string][]string `json:",omitempty"`
+	Exts  []string            `json:",omitempty"`
 	// observed-only attributes (filled by canon, and by Attribute for the reference)
 	ReadOnly   bool
 	DefaultVal []string // DefaultValues()
@@ -68,6 +73,40 @@ type XNode struct {
 	Src     string
 	ViaUses bool
 	ViaAug  bool
+}
+
+// AddStmts appends the statements to the node's Extra and Exts (never sharing storage with another node).
+func (x *XNode) AddStmts(st []ymodel.Stmt) {
+	for _, e := range st {
+		if e.IsExt() {
+			x.Exts = append(x.Exts[:len(x.Exts):len(x.Exts)], e.Kw+" "+e.Arg)
+			continue
+		}
+		if x.Extra == nil {
+			x.Extra = map[string][]string{}
+		}
+		l := x.Extra[e.Kw]
+		x.Extra[e.Kw] = append(l[:len(l):len(l)], e.Arg)
+	}
+}
+
+// StmtsString renders Extra and Exts for comparison.
+func (x *XNode) StmtsString() string {
+	keys := make([]string, 0, len(x.Extra))
+	for k, v := range x.Extra {
+		if len(v) > 0 {
+			keys = append(keys, k)
+		}
+	}
+	sort.Strings(keys)
+	var b strings.Builder
+	for _, k := range keys {
+		fmt.Fprintf(&b, "%s=%q ", k, x.Extra[k])
+	}
+	if len(x.Exts) > 0 {
+		fmt.Fprintf(&b, "extensions=%q", x.Exts)
+	}
+	return b.String()
 }
 
 var intKinds = map[string]numref.Iv{}
